@@ -10,23 +10,27 @@ import EPV.Lemmas.ScopeFrame
 import EPV.Spec.LexicalSem
 namespace EPV.Scope
 
+variable {lex : Bool}
+
 inductive All2 {α β : Type} (R : α → β → Prop) : List α → List β → Prop
   | nil : All2 R [] []
   | cons {a b as bs} : R a b → All2 R as bs → All2 R (a :: as) (b :: bs)
 
-inductive IRel : Item → Item → Prop
-  | int (n : Int) : IRel (.int n) (.int n)
-  | bool (b : Bool) : IRel (.bool b) (.bool b)
-  | dtv (l : Int) (z : Option Int) : IRel (.dtv l z) (.dtv l z)
-  | dtref (r : Nat) : IRel (.dtref r) (.dtref r)
-  | dur (s : Int) : IRel (.dur s) (.dur s)
-  | fn (ps : List Name) (b : Expr) (ρ1 ρ2 : Env) (S : List Name)
-      (hws : WS false (ps ++ S) b = true)
+inductive IRel (lex : Bool) : Item → Item → Prop
+  | int (n : Int) : IRel lex (.int n) (.int n)
+  | bool (b : Bool) : IRel lex (.bool b) (.bool b)
+  | dtv (l : Int) (z : Option Int) : IRel lex (.dtv l z) (.dtv l z)
+  | dtref (r : Nat) : IRel lex (.dtref r) (.dtref r)
+  | dur (s : Int) : IRel lex (.dur s) (.dur s)
+  | fn (ps : List Name) (b : Expr) (ρ1 ρ2 : Env) (S : List Name) (ex : Bool)
+      (hex : ex = true → lex = true)
+      (hws : WS lex ex (ps ++ S) b = true)
       (hdom : ∀ x, x ∈ S → (ρ1.lookup x).isSome = true ∧ (ρ2.lookup x).isSome = true)
-      (hrel : ∀ x v1 v2, x ∈ S → ρ1.lookup x = some v1 → ρ2.lookup x = some v2 → All2 IRel v1 v2) :
-      IRel (.fn ps b ρ1) (.fn ps b ρ2)
+      (hrel : ∀ x v1 v2, x ∈ S → ρ1.lookup x = some v1 → ρ2.lookup x = some v2 → All2 (IRel lex) v1 v2)
+      (hout : ex = true → ∀ x, x ∉ S → ρ1.lookup x = none ∧ ρ2.lookup x = none) :
+      IRel lex (.fn ps b ρ1) (.fn ps b ρ2)
 
-abbrev VRel : Val → Val → Prop := All2 IRel
+abbrev VRel (lex : Bool) : Val → Val → Prop := All2 (IRel lex)
 
 theorem All2.append {α β : Type} {R : α → β → Prop} {a1 a2 : List α} {b1 b2 : List β}
     (h1 : All2 R a1 b1) (h2 : All2 R a2 b2) : All2 R (a1 ++ a2) (b1 ++ b2) := by
@@ -41,18 +45,18 @@ theorem All2.length_eq {α β : Type} {R : α → β → Prop} {a : List α} {b 
   | cons _ _ ih => simp [ih]
 
 /-- both dicts bind every name of `S`, to related values -/
-def ERel (S : List Name) (ρ1 ρ2 : Env) : Prop :=
+def ERel (lex : Bool) (S : List Name) (ρ1 ρ2 : Env) : Prop :=
   (∀ x, x ∈ S → (ρ1.lookup x).isSome = true ∧ (ρ2.lookup x).isSome = true) ∧
-  (∀ x v1 v2, x ∈ S → ρ1.lookup x = some v1 → ρ2.lookup x = some v2 → VRel v1 v2)
+  (∀ x v1 v2, x ∈ S → ρ1.lookup x = some v1 → ρ2.lookup x = some v2 → VRel lex v1 v2)
 
-/-- `ERel` on `S`; in exact mode nothing else is bound on either side.  `off` exempts one name
+/-- `ERel lex` on `S`; in exact mode nothing else is bound on either side.  `off` exempts one name
 (the loop variable, which the `for` loop leaves bound in its own dict between iterations). -/
-def Inv (off : Option Name) (exact : Bool) (S : List Name) (ρ1 ρ2 : Env) : Prop :=
+def Inv (lex : Bool) (off : Option Name) (exact : Bool) (S : List Name) (ρ1 ρ2 : Env) : Prop :=
   (∀ x, x ∈ S → some x ≠ off → (ρ1.lookup x).isSome = true ∧ (ρ2.lookup x).isSome = true) ∧
-  (∀ x v1 v2, x ∈ S → some x ≠ off → ρ1.lookup x = some v1 → ρ2.lookup x = some v2 → VRel v1 v2) ∧
+  (∀ x v1 v2, x ∈ S → some x ≠ off → ρ1.lookup x = some v1 → ρ2.lookup x = some v2 → VRel lex v1 v2) ∧
   (exact = true → ∀ x, x ∉ S → some x ≠ off → ρ1.lookup x = none ∧ ρ2.lookup x = none)
 
-theorem Inv.weaken {exact S ρ1 ρ2} (x : Name) (h : Inv none exact S ρ1 ρ2) : Inv (some x) exact S ρ1 ρ2 :=
+theorem Inv.weaken {exact S ρ1 ρ2} (x : Name) (h : Inv lex none exact S ρ1 ρ2) : Inv lex (some x) exact S ρ1 ρ2 :=
   ⟨fun y hy _ => h.1 y hy (by simp), fun y v1 v2 hy _ => h.2.1 y v1 v2 hy (by simp),
    fun he y hy _ => h.2.2 he y hy (by simp)⟩
 
@@ -65,8 +69,8 @@ theorem lookup_cons_ne {x y : Name} {v : Val} {ρ : Env} (h : y ≠ x) :
   simp [List.lookup, this]
 
 /-- binding the exempted name on both sides to related values gives the full invariant for `x :: S` -/
-theorem Inv.bind {exact S ρ1 ρ2} {x : Name} {v1 v2 : Val} (h : Inv (some x) exact S ρ1 ρ2) (hv : VRel v1 v2) :
-    Inv none exact (x :: S) ((x, v1) :: ρ1) ((x, v2) :: ρ2) := by
+theorem Inv.bind {exact S ρ1 ρ2} {x : Name} {v1 v2 : Val} (h : Inv lex (some x) exact S ρ1 ρ2) (hv : VRel lex v1 v2) :
+    Inv lex none exact (x :: S) ((x, v1) :: ρ1) ((x, v2) :: ρ2) := by
   refine ⟨?_, ?_, ?_⟩
   · intro y hy _
     by_cases hyx : y = x
@@ -89,8 +93,8 @@ theorem Inv.bind {exact S ρ1 ρ2} {x : Name} {v1 v2 : Val} (h : Inv (some x) ex
     exact h.2.2 he y this (by simpa using hyx)
 
 /-- the loop dict after an iteration: the exempted name is bound to something, the rest is as before -/
-theorem Inv.step {exact S ρ1 ρ2} {x : Name} {v : Val} (h : Inv (some x) exact S ρ1 ρ2) :
-    Inv (some x) exact S ((x, v) :: ρ1) ρ2 := by
+theorem Inv.step {exact S ρ1 ρ2} {x : Name} {v : Val} (h : Inv lex (some x) exact S ρ1 ρ2) :
+    Inv lex (some x) exact S ((x, v) :: ρ1) ρ2 := by
   refine ⟨?_, ?_, ?_⟩
   · intro y hy hne
     have hyx : y ≠ x := by simpa using hne
@@ -102,12 +106,12 @@ theorem Inv.step {exact S ρ1 ρ2} {x : Name} {v : Val} (h : Inv (some x) exact 
     have hyx : y ≠ x := by simpa using hne
     rw [lookup_cons_ne hyx]; exact h.2.2 he y hy hne
 
-theorem Inv.toERel {exact S ρ1 ρ2} (h : Inv none exact S ρ1 ρ2) : ERel S ρ1 ρ2 :=
+theorem Inv.toERel {exact S ρ1 ρ2} (h : Inv lex none exact S ρ1 ρ2) : ERel lex S ρ1 ρ2 :=
   ⟨fun x hx => h.1 x hx (by simp), fun x v1 v2 hx => h.2.1 x v1 v2 hx (by simp)⟩
 
 /-! ### primitives agree on related values -/
 
-theorem IRel.refl_of_notFn : ∀ (x : Item), (∀ ps b c, x ≠ .fn ps b c) → IRel x x
+theorem IRel.refl_of_notFn : ∀ (x : Item), (∀ ps b c, x ≠ .fn ps b c) → IRel lex x x
   | .int n, _ => .int n
   | .bool b, _ => .bool b
   | .dtv l z, _ => .dtv l z
@@ -115,24 +119,24 @@ theorem IRel.refl_of_notFn : ∀ (x : Item), (∀ ps b c, x ≠ .fn ps b c) → 
   | .dur s, _ => .dur s
   | .fn ps b c, h => absurd rfl (h ps b c)
 
-theorem deref_rel {h : Heap} {x1 x2 : Item} (hx : IRel x1 x2) : deref h x1 = deref h x2 := by
+theorem deref_rel {h : Heap} {x1 x2 : Item} (hx : IRel lex x1 x2) : deref h x1 = deref h x2 := by
   cases hx <;> rfl
 
-theorem addItems_rel {x1 x2 y1 y2 : Item} (hx : IRel x1 x2) (hy : IRel y1 y2) :
+theorem addItems_rel {x1 x2 y1 y2 : Item} (hx : IRel lex x1 x2) (hy : IRel lex y1 y2) :
     addItems x1 y1 = addItems x2 y2 := by
   cases hx <;> cases hy <;> rfl
 
-theorem addItems_notFn {x y r : Item} (h : addItems x y = some r) : IRel r r := by
+theorem addItems_notFn {x y r : Item} (h : addItems x y = some r) : IRel lex r r := by
   unfold addItems at h
   split at h
   · cases h; exact .int _
   · cases h
 
-theorem subPure_rel {tz : Option Int} {h : Heap} {x1 x2 y1 y2 : Item} (hx : IRel x1 x2) (hy : IRel y1 y2) :
+theorem subPure_rel {tz : Option Int} {h : Heap} {x1 x2 y1 y2 : Item} (hx : IRel lex x1 x2) (hy : IRel lex y1 y2) :
     subPure tz h x1 y1 = subPure tz h x2 y2 := by
   cases hx <;> cases hy <;> rfl
 
-theorem subPure_notFn {tz : Option Int} {h : Heap} {x y r : Item} (he : subPure tz h x y = some r) : IRel r r := by
+theorem subPure_notFn {tz : Option Int} {h : Heap} {x y r : Item} (he : subPure tz h x y = some r) : IRel lex r r := by
   unfold subPure at he
   split at he
   · cases he; exact .int _
@@ -147,7 +151,7 @@ theorem subItems_fixed {c : Cfg} (hq : c.q.operandCopied = true) (h : Heap) (x y
   | none => rfl
   | some r => simp [hq]
 
-theorem ebv_rel {v1 v2 : Val} (hv : VRel v1 v2) : ebv v1 = ebv v2 := by
+theorem ebv_rel {v1 v2 : Val} (hv : VRel lex v1 v2) : ebv v1 = ebv v2 := by
   cases hv with
   | nil => rfl
   | cons h1 t =>
@@ -155,16 +159,16 @@ theorem ebv_rel {v1 v2 : Val} (hv : VRel v1 v2) : ebv v1 = ebv v2 := by
     | nil => cases h1 <;> rfl
     | cons h2 t2 => cases h1 <;> rfl
 
-theorem allInts_rel {v1 v2 : Val} (hv : VRel v1 v2) : allInts v1 = allInts v2 := by
+theorem allInts_rel {v1 v2 : Val} (hv : VRel lex v1 v2) : allInts v1 = allInts v2 := by
   induction hv with
   | nil => rfl
   | cons h _ ih => cases h <;> simp [allInts, ih]
 
-theorem genEq_rel {a1 a2 b1 b2 : Val} (ha : VRel a1 a2) (hb : VRel b1 b2) : genEq a1 b1 = genEq a2 b2 := by
+theorem genEq_rel {a1 a2 b1 b2 : Val} (ha : VRel lex a1 a2) (hb : VRel lex b1 b2) : genEq a1 b1 = genEq a2 b2 := by
   unfold genEq
   rw [allInts_rel ha, allInts_rel hb]
 
-theorem tzItem_rel {h : Heap} {v1 v2 : Val} (hv : VRel v1 v2) : tzItem h v1 = tzItem h v2 := by
+theorem tzItem_rel {h : Heap} {v1 v2 : Val} (hv : VRel lex v1 v2) : tzItem h v1 = tzItem h v2 := by
   cases hv with
   | nil => rfl
   | cons h1 t =>
@@ -172,7 +176,7 @@ theorem tzItem_rel {h : Heap} {v1 v2 : Val} (hv : VRel v1 v2) : tzItem h v1 = tz
     | nil => simp [tzItem, deref_rel h1]
     | cons h2 t2 => rfl
 
-theorem tzItem_notFn {h : Heap} {v r : Val} (he : tzItem h v = .ok r) : VRel r r := by
+theorem tzItem_notFn {h : Heap} {v r : Val} (he : tzItem h v = .ok r) : VRel lex r r := by
   unfold tzItem at he
   split at he
   · cases he; exact .nil
